@@ -42,3 +42,23 @@ func init() {
 			"\tupdateCallback.Register(\"gorm:save_after_associations\", SaveAfterAssociations(false))\n\tupdateCallback.Register(\"gorm:after_update\", AfterUpdate)", "\tupdateCallback.Register(\"gorm:after_update\", AfterUpdate)\n\tupdateCallback.Register(\"gorm:save_after_associations\", SaveAfterAssociations(false))"}}},
 	)
 }
+
+func init() {
+	addMutants(
+		// C15.pk-placeholder
+		Mutant{Name: "c15-batch-cursor-read-from-first-primary-field", Property: "C15", Rule: "C15.pk-placeholder", Edits: []Edit{{"finisher_api.go",
+			"\t\tprimaryValue, zero := result.Statement.Schema.PrioritizedPrimaryField.ValueOf(tx.Statement.Context, resultsValue.Index(resultsValue.Len()-1))", "\t\tprimaryValue, zero := result.Statement.Schema.PrimaryFields[0].ValueOf(tx.Statement.Context, resultsValue.Index(resultsValue.Len()-1))"}}},
+		Mutant{Name: "n88-placeholder-field-in-a-local", Property: "*", Rule: "NEUTRAL", Edits: []Edit{{"statement.go",
+			"\t\t\t} else if stmt.Schema.PrioritizedPrimaryField != nil {\n\t\t\t\twrite(v.Raw, stmt.Schema.PrioritizedPrimaryField.DBName)", "\t\t\t} else if pk := stmt.Schema.PrioritizedPrimaryField; pk != nil {\n\t\t\t\twrite(v.Raw, pk.DBName)"}}},
+		// C16.key-all
+		Mutant{Name: "c16-update-key-from-first-primary-field", Property: "C16", Rule: "C16.key-all", Edits: []Edit{{"callbacks/update.go",
+			"\t\tcase reflect.Struct:\n\t\t\tfor _, field := range stmt.Schema.PrimaryFields {\n\t\t\t\tif value, isZero := field.ValueOf(stmt.Context, stmt.ReflectValue); !isZero {", "\t\tcase reflect.Struct:\n\t\t\tfor _, field := range stmt.Schema.PrimaryFields[:1] {\n\t\t\t\tif value, isZero := field.ValueOf(stmt.Context, stmt.ReflectValue); !isZero {"}}},
+		Mutant{Name: "n89-update-key-loop-by-index", Property: "*", Rule: "NEUTRAL", Edits: []Edit{{"callbacks/update.go",
+			"\t\tcase reflect.Struct:\n\t\t\tfor _, field := range stmt.Schema.PrimaryFields {\n\t\t\t\tif value, isZero := field.ValueOf(stmt.Context, stmt.ReflectValue); !isZero {", "\t\tcase reflect.Struct:\n\t\t\tprimaryFields := stmt.Schema.PrimaryFields\n\t\t\tfor _, field := range primaryFields {\n\t\t\t\tif value, isZero := field.ValueOf(stmt.Context, stmt.ReflectValue); !isZero {"}}},
+		// C17.register
+		Mutant{Name: "c17-remove-returns-early-for-unknown-name", Property: "C17", Rule: "C17.register", Edits: []Edit{{"callbacks.go",
+			"\tc.name = name\n\tc.remove = true\n", "\tc.name = name\n\tc.remove = true\n\tif len(c.processor.callbacks) == 0 {\n\t\treturn c.processor.compile()\n\t}\n"}}},
+		Mutant{Name: "n90-replace-append-through-a-local-list", Property: "*", Rule: "NEUTRAL", Edits: []Edit{{"callbacks.go",
+			"\tc.replace = true\n\tc.processor.callbacks = append(c.processor.callbacks, c)\n\treturn c.processor.compile()", "\tc.replace = true\n\tproc := c.processor\n\tproc.callbacks = append(proc.callbacks, c)\n\treturn proc.compile()"}}},
+	)
+}
